@@ -7,7 +7,7 @@ class P(Prop):
     MODULE = "C02"
     THEOREMS = ["C02_first", "C02_last", "C02_total", "C02_char", "C02_halfopen", "C02_idx", "C02_breakpoint",
                 "C02_minus_infinity", "C02_plus_infinity", "C02_example"]
-    KERNELS = ["Segment<Poly0>::evaluate", "Segment<Poly3>::evaluate", "Segment<Poly8>::evaluate",
+    KERNELS = ["Segment<Poly0>::evaluate", "Segment<Poly1>::evaluate", "Segment<Poly3>::evaluate", "Segment<Poly8>::evaluate",
                "Segment<IntOfLogPoly4>::evaluate"]
     RULE = ("segment lists of 1..12 (thorough ..200) pieces with non-decreasing non-NaN ends (increasing, duplicate, "
             "zero-width, +-0, +-inf, wide range) over Poly0 tags / Poly3 / Poly8 / IntOfLogPoly4; queries at ends, "
@@ -29,6 +29,18 @@ class P(Prop):
                 es, sg = G.segs(rng, ty, k)
             xs = G.queries(rng, es, 12)
             out.append(dict(op="pw_eval", ty=ty, segs=sg, xs=xs, libm=G.uses_libm(ty), meta={"class": "pw_eval/" + ty}))
+        # lengths around every plausible block / cut-over size, queried everywhere
+        for k in (15, 16, 17, 18, 31, 32, 33, 63, 64, 65, 66, 100, 129):
+            es, sg = G.tag_segs(rng, k, rng.choice(["inc", "ints", "dups"]))
+            out.append(dict(op="pw_eval", ty="Poly0", segs=sg, xs=G.queries(rng, es, 24), meta={"class": "pw_eval/long"}))
+        # the VALUE is the piece evaluated at x itself, bit for bit: signed zeros as arguments of pieces that tell them apart
+        Z = [C.bits(0.0), C.bits(-0.0)]
+        for _ in range(10 if tier == "quick" else 120):
+            k = rng.randint(1, 4)
+            es = sorted(rng.choice([-1.0, -0.0, 0.0, 1.0, 2.0]) for _ in range(k))
+            sg = [[C.bits(e), C.bits(rng.choice([-0.0, -0.0, 0.0, 1.5])), C.bits(rng.choice([1.0, -3.0, 0.0, -0.0]))] for e in es]
+            xs = [rng.choice(Z + [C.bits(-1.0), C.bits(0.5), C.bits(5e-324), C.bits(-5e-324)]) for _ in range(8)]
+            out.append(dict(op="pw_eval", ty="Poly1", segs=sg, xs=xs, meta={"class": "pw_eval/signed_zero"}))
         out.append(dict(op="pw_eval", ty="Poly0", segs=[], xs=[0], meta={"class": "empty"}))
         return out
 
@@ -47,6 +59,15 @@ class P(Prop):
             return None if h["r"] == "PANIC" else "empty piecewise did not panic"
         if h["r"] == "PANIC":
             return "panic on non-empty piecewise: %s" % h.get("msg")
+        if case["ty"] == "Poly1":
+            # exact: value = fma(c1, x, c0) of the selected piece at x itself
+            for xb, rb in zip(case["xs"], h["r"]):
+                x = C.fl(xb)
+                sel = next((s for s in segs if C.fl(s[0]) > x), segs[-1])
+                exp = C.bits(C.fma_exact(C.fl(sel[2]), x, C.fl(sel[1])))
+                if C.canon(rb) != C.canon(exp):
+                    return "at x=%r (bits 0x%016x) the selected piece %r evaluates to 0x%016x, got 0x%016x" % (x, xb, [C.fl(b) for b in sel], exp, rb)
+            return None
         if case["ty"] != "Poly0":
             return None
         for xb, rb in zip(case["xs"], h["r"]):
